@@ -10,10 +10,19 @@ IMPL = os.path.join(SPEC, "impl")
 _ST = re.compile(r"(\d+) states generated, (\d+) distinct states found")
 
 
-def modules():
+def configs():
+    """(module, cfg name, expect_violation) for every cfg file under spec/impl.  A cfg whose name
+    ends in _pinned or _bad selects a defective rule and must produce a counterexample."""
+    out = []
     if not os.path.isdir(IMPL):
-        return []
-    return sorted(f[:-4] for f in os.listdir(IMPL) if f.endswith(".tla") and os.path.exists(os.path.join(IMPL, f[:-4] + ".cfg")))
+        return out
+    for f in sorted(os.listdir(IMPL)):
+        if f.endswith(".cfg"):
+            name = f[:-4]
+            mod = name.split("_")[0]
+            if os.path.exists(os.path.join(IMPL, mod + ".tla")):
+                out.append((mod, name, name.endswith("_pinned") or name.endswith("_bad")))
+    return out
 
 
 def run_one(mod, cfgname, wd, timeout, expect_violation=False):
@@ -32,7 +41,7 @@ def run_one(mod, cfgname, wd, timeout, expect_violation=False):
     run = dict(module=mod, cfg=cfgname, rc=rc, wall_s=round(time.time() - t0, 1))
     if m:
         run["transitions"], run["states"] = int(m.group(1)), int(m.group(2))
-    run["violated"] = "is violated" in text
+    run["violated"] = "is violated" in text or "Error: " in text and "evaluat" in text
     run["complete"] = "No error has been found" in text
     run["tail"] = text[-1500:] if not (run["complete"] or run["violated"]) else ""
     return run
@@ -41,11 +50,7 @@ def run_one(mod, cfgname, wd, timeout, expect_violation=False):
 def run_all(tier, wd):
     os.makedirs(wd, exist_ok=True)
     res = dict(states=0, transitions=0, runs=[])
-    jobs = []
-    for mod in modules():
-        jobs.append((mod, mod, False))
-        if os.path.exists(os.path.join(IMPL, mod + "_pinned.cfg")):
-            jobs.append((mod, mod + "_pinned", True))
+    jobs = configs()
     timeout = 200 if tier == "quick" else 1800
 
     def one(j):
@@ -58,7 +63,7 @@ def run_all(tier, wd):
             if expect:
                 # the pre-repair rule must still produce its counterexample (the layer can see that class of bug)
                 if not run["violated"]:
-                    res["infra"] = "pinned variant %s no longer yields a counterexample\n%s" % (cfgname, run["tail"])
+                    res["infra"] = "defective variant %s no longer yields a counterexample\n%s" % (cfgname, run["tail"])
             else:
                 res["states"] += run.get("states", 0)
                 res["transitions"] += run.get("transitions", 0)
